@@ -416,7 +416,10 @@ theorem construct_origArgs (a : Args) (r : Rule) (h : construct a = .ok r) (hsp 
   have g_e : (origArgs a r).byeaster.map (sortBy ltInt) = a.byeaster.map (sortBy ltInt) := by
     show r.byeaster.map (sortBy ltInt) = _
     rw [hbe]; cases a.byeaster <;> simp [sortBy_int_idem]
+  have hpos := construct_interval_pos a r h
   unfold construct
+  rw [if_neg (by show ¬ r.interval < 1; rw [hint]; omega)]
+  unfold constructBody
   rw [e1, e2, e3, e4]
   simp only [bind, Except.bind]
   rw [e5]
